@@ -4,6 +4,7 @@ import (
 	"fmt"
 	"sort"
 	"strings"
+	"sync"
 
 	"github.com/orda-io/orda/client/pkg/model"
 	"github.com/orda-io/orda/server/schema"
@@ -93,6 +94,7 @@ func (b *Bed) CollectionNum(name string) int32 {
 
 // Ledger records, at the client boundary, every operation a correct client offered.
 type Ledger struct {
+	mu      sync.Mutex
 	offered map[string]bool // duid-independent: cuid|seq|lamport|type|bodyhash
 }
 
@@ -105,6 +107,8 @@ func opKey(cuid string, seq, lamport uint64, typ string, body []byte) string {
 
 // Offer records the operations of a request.
 func (l *Ledger) Offer(req *model.PushPullMessage) {
+	l.mu.Lock()
+	defer l.mu.Unlock()
 	for _, p := range req.PushPullPacks {
 		for _, o := range p.Operations {
 			if o.ID == nil {
